@@ -48,3 +48,41 @@ vf_rbn* f__ZSt18_Rb_tree_decrementPSt18_Rb_tree_node_base(vf_rbn* x) {
   }
 }
 vf_rbn* f__ZSt18_Rb_tree_decrementPKSt18_Rb_tree_node_base(vf_rbn* x) { return f__ZSt18_Rb_tree_decrementPSt18_Rb_tree_node_base(x); }
+/* erase: libstdc++'s _Rb_tree_rebalance_for_erase without the recolouring /
+ * rotations (unlink z, splice its in-order successor if it has two children,
+ * maintain root / leftmost / rightmost of the header); returns the node to
+ * destroy. */
+#define HAVE_f__ZSt28_Rb_tree_rebalance_for_erasePSt18_Rb_tree_node_baseRS_
+vf_rbn* f__ZSt28_Rb_tree_rebalance_for_erasePSt18_Rb_tree_node_baseRS_(vf_rbn* z, vf_rbn* header) {
+  vf_rbn* y = z; vf_rbn* x = 0;
+  if (y->f2 == 0) x = y->f3;
+  else if (y->f3 == 0) x = y->f2;
+  else { y = y->f3; while (y->f2 != 0) y = y->f2; x = y->f3; }
+  if (y != z) {
+    z->f2->f1 = y; y->f2 = z->f2;
+    if (y != z->f3) {
+      if (x) x->f1 = y->f1;
+      y->f1->f2 = x;
+      y->f3 = z->f3; z->f3->f1 = y;
+    }
+    if (header->f1 == z) header->f1 = y;
+    else if (z->f1->f2 == z) z->f1->f2 = y;
+    else z->f1->f3 = y;
+    y->f1 = z->f1;
+    y = z;
+  } else {
+    if (x) x->f1 = y->f1;
+    if (header->f1 == z) header->f1 = x;
+    else if (z->f1->f2 == z) z->f1->f2 = x;
+    else z->f1->f3 = x;
+    if (header->f2 == z) {
+      if (z->f3 == 0) header->f2 = z->f1;
+      else { vf_rbn* m = x; while (m->f2 != 0) m = m->f2; header->f2 = m; }
+    }
+    if (header->f3 == z) {
+      if (z->f2 == 0) header->f3 = z->f1;
+      else { vf_rbn* m = x; while (m->f3 != 0) m = m->f3; header->f3 = m; }
+    }
+  }
+  return y;
+}
